@@ -169,7 +169,7 @@ func init() {
 			"with and without LRU/LFU, a third of the histories with the real janitor at 1ms and a count limit (evictions recorded at its cache_evict call-out); call/return stamped from one atomic logical clock at the client boundary with seeded delays; " +
 			"porcupine NondeterministicModel per key (batch ops, evictions and partner writes inserted into every affected key's partition) + walk monitor (reported tokens were written under the key; keys stable during the walk reported exactly once); " +
 			"distinct_nontrivial = distinct histories (hash of the per-key outcome patterns) containing at least one pair of real-time-concurrent conflicting operations on one key",
-		Required:    []string{"histories", "partitions.ok", "histories.concurrent_conflict", "ops.read", "ops.write", "ops.delete", "ops.expireall", "ops.deleteall", "ops.walk", "walk.stable_keys.checked", "evictions.recorded", "cleanup_cycles.recorded", "kind.ShardedMap", "kind.SyncMap", "kind.ShardedMapOf"},
+		Required:    []string{"histories", "partitions.ok", "histories.concurrent_conflict", "ops.read", "ops.write", "ops.delete", "ops.expireall", "ops.deleteall", "ops.walk", "walk.stable_keys.checked", "bulkwalk.cases", "evictions.recorded", "cleanup_cycles.recorded", "kind.ShardedMap", "kind.SyncMap", "kind.ShardedMapOf"},
 		Assumptions: []string{"a batch operation is modelled as acting on each key at one instant within its call; an eviction cycle as {unchanged, removed} within [previous janitor call-out, cache_evict call-out]", "checker timeout (30s per key partition) = inconclusive"},
 		Timeout:     func(string) time.Duration { return 45 * time.Minute },
 		ChildEnv:    []string{"GOMAXPROCS=8"},
@@ -184,6 +184,15 @@ func runC08(b *Batch) {
 		}
 		c08Case(b, i)
 		collectGarbage(i)
+	}
+	nb := b.Pick(16, 320) / b.NBatches
+	if nb == 0 {
+		nb = 1
+	}
+	for i := 0; i < nb; i++ {
+		if !b.Skip(n + i) {
+			c08BulkWalk(b, n+i)
+		}
 	}
 }
 
